@@ -35,6 +35,32 @@ fn main() {
         println!("VERDICT {}", serde_json::to_string(&v).unwrap());
         std::process::exit(3);
     }));
+    // C10 watchdog: an alloc_with_options call during which no VM callback (stop/resume/block/oom)
+    // happens for 30 s is stuck (retrying a hopeless request); heaps are tiny, a whole GC takes milliseconds.
+    std::thread::spawn(|| {
+        use std::sync::atomic::Ordering;
+        let gl = vh::shadow::vm::g();
+        let snap = || (gl.in_alloc_call.load(Ordering::SeqCst), gl.stop_calls.load(Ordering::SeqCst), gl.resume_calls.load(Ordering::SeqCst), gl.block_calls.load(Ordering::SeqCst), gl.oom_calls.load(Ordering::SeqCst));
+        let mut last = snap();
+        let mut since = std::time::Instant::now();
+        loop {
+            std::thread::sleep(std::time::Duration::from_millis(500));
+            let now = snap();
+            if now != last || now.0 == 0 {
+                last = now;
+                since = std::time::Instant::now();
+                continue;
+            }
+            if since.elapsed().as_secs() >= 30 {
+                let mut v = Verdict::default();
+                v.ok = false;
+                let d = gl.alloc_call_desc.lock().map(|s| s.clone()).unwrap_or_default();
+                v.violations.push(Violation { property: "C10".into(), step: 0, detail: format!("{} has not returned after 30 s without any collection, block_for_gc or out_of_memory activity", d), signature: "alloc-does-not-return".into() });
+                println!("VERDICT {}", serde_json::to_string(&v).unwrap());
+                std::process::exit(1);
+            }
+        }
+    });
     let verdict = match case.variant {
         0 => run::<0>(case),
         1 => run::<1>(case),
